@@ -84,7 +84,7 @@ def corpus(tier):
     return res
 
 
-def clause(facts, rep, tier, rule='E5.number-value'):
+def clause(facts, rep, tier, rule='E5.number-value', every=1):
     fs = [f for f in facts.functions if f.short == 'parseNumber' and f.cls_qn == 'sonic_json::Parser' and len(f.params) == 1 and f.blocks]
     rep.require(len(fs) >= 1, '%s: Parser::parseNumber not found' % rule)
     errs = facts.enum_values()
@@ -112,7 +112,7 @@ def clause(facts, rep, tier, rule='E5.number-value'):
         bad = None
         n = 0
         try:
-            for t in corpus(tier):
+            for t in corpus(tier)[::every]:
                 buf = t.encode() + b'x"x' + b'\\0' * 64
                 mem = {base + i: b for i, b in enumerate(buf)}
                 it = vm.make(fn, mem, [])
